@@ -2,9 +2,9 @@
 (* Design check: the specification's parser and score functions against the official
    calculator vectors pinned under /verif/data/official (FIRST calculators / cvsslib / NVD).
    An error in my transcription of the standards is caught here, independently of the code. *)
-EXTENDS Vector, Json, IOUtils
+EXTENDS Vector, Json, IOUtils, TraceData
 CONSTANT W
-T == JsonDeserialize(IOEnv.TRACE_FILE)     \* sequence of [ver, s, exp]
+T == TraceData
 VARIABLE i
 Init == i \in 1..W
 Next == i + W <= Len(T) /\ i' = i + W
